@@ -1,4 +1,5 @@
 import FiberModel.C05.Lemmas
+import FiberModel.C05.SchedLemmas
 import FiberModel.C05.Facts
 /-
 C05 — property theorems.
@@ -52,7 +53,14 @@ theorem step_sim {F : RFacts} (ok : F.ok = true) {w w' : World} (hw : w.Clean) (
     (step F w rq pk).2 = (step F w' rq pk').2 ∧ (step F w rq pk).1.Clean := by
   unfold step
   by_cases hb : rq.bad ≠ 0
-  · simp [hb, hw]
+  · rw [if_pos hb, if_pos hb]
+    have t := takeAt_mem w.ctxs pk.ctx Ctx.fresh Ctx.Clean Ctx.fresh_clean hw.ctxs
+    have sb := serveBad_clean ok (takeAt w.ctxs pk.ctx Ctx.fresh).1 hw.reds rq pk.red
+    refine ⟨rfl, ⟨?_, sb.2⟩⟩
+    intro c hc
+    rcases List.mem_cons.mp hc with rfl | hc
+    · exact sb.1
+    · exact t.2 c hc
   · simp only [hb, if_false]
     have t := takeAt_mem w.ctxs pk.ctx Ctx.fresh Ctx.Clean Ctx.fresh_clean hw.ctxs
     have t' := takeAt_mem w'.ctxs pk'.ctx Ctx.fresh Ctx.Clean Ctx.fresh_clean hw'.ctxs
@@ -83,6 +91,82 @@ theorem probe_independent_of_history {F : RFacts} (ok : F.ok = true) (hist : Lis
 theorem probe_independent_of_history_current (hist : List (Req × Pick)) (probe : Req) (pk : Pick) :
     probeAfter theFacts hist probe pk = probeFresh theFacts probe :=
   probe_independent_of_history fields_reset_or_overwritten.2.2 hist probe pk
+
+/-! ### Concurrent schedules -/
+
+/-- Every schedule keeps the concurrent world in order: the pools hold clean objects only, every
+    request in flight agrees (up to unreadable garbage) with a twin served alone by a fresh application,
+    every finished request observed what it would have observed on a fresh application. -/
+theorem runSched_invariant {F : RFacts} (ok : F.ok = true) (evs : List Ev) :
+    (runSched F CWorld.empty evs).Inv F := runSched_inv ok evs (CWorld.empty_inv F)
+
+/-- **Main theorem, schedules.** For every table digest in order and EVERY schedule — any number of
+    requests (valid, malformed, crafted cookies, any scripts) whose atomic steps (acquire+Reset; flash
+    check+middleware+route match; each handler action; epilogue+release) are interleaved in any order,
+    with arbitrary choices of which pooled context / Redirect every `Get` returns and with sync.Pool
+    dropping pooled objects at any time — every request that finishes has observed exactly what it
+    observes when it is the only request a fresh application ever serves. -/
+theorem finished_independent_of_schedule {F : RFacts} (ok : F.ok = true) (evs : List Ev)
+    (id : Nat) (rq : Req) (o : Obs) (h : (id, rq, o) ∈ (runSched F CWorld.empty evs).finished) :
+    some o = probeFresh F rq := by
+  have := (runSched_invariant ok evs).finished _ h
+  have h1 : rq.bad = 0 := this.1
+  have h2 : o = obsFresh F rq := this.2
+  rw [probeFresh_eq F rq h1, h2]
+
+/-- … in particular for the tables regenerated from the current sources. -/
+theorem finished_independent_of_schedule_current (evs : List Ev)
+    (id : Nat) (rq : Req) (o : Obs) (h : (id, rq, o) ∈ (runSched theFacts CWorld.empty evs).finished) :
+    some o = probeFresh theFacts rq :=
+  finished_independent_of_schedule fields_reset_or_overwritten.2.2 evs id rq o h
+
+/-- A sequential `step` IS the schedule in which the request runs alone (acquire, enter, one `act` per
+    script action, done): the concurrent semantics contains the sequential one the correspondence check
+    validates against the real server. -/
+theorem step_as_schedule {F : RFacts} (ok : F.ok = true) (w : World) (fin : List (Nat × Req × Obs))
+    (id : Nat) (rq : Req) (pk : Pick) :
+    runSched F (w.toC fin) (soloEvents id rq pk) =
+      (step F w rq pk).1.toC (match (step F w rq pk).2 with | some o => (id, rq, o) :: fin | none => fin) := by
+  rw [soloEvents_eq, runSched_append]
+  by_cases hb : rq.bad ≠ 0
+  · have h0 : runSched F (w.toC fin) [.acquire id rq pk, .enter id pk.red] = (step F w rq pk).1.toC fin := by
+      simp [runSched, cstep, World.toC, step, hb, List.lookup]
+    rw [h0, runSched_append, acts_absent F _ id pk.red rfl]
+    simp [runSched, cstep, World.toC, step, hb, List.lookup]
+  · have hb0 : rq.bad = 0 := by simpa using hb
+    have h0 : runSched F (w.toC fin) [.acquire id rq pk, .enter id pk.red] =
+        ⟨(takeAt w.ctxs pk.ctx Ctx.fresh).2, ((Flight.acquire F (takeAt w.ctxs pk.ctx Ctx.fresh).1 rq).enter F w.reds pk.red).2,
+         [(id, ((Flight.acquire F (takeAt w.ctxs pk.ctx Ctx.fresh).1 rq).enter F w.reds pk.red).1)], fin⟩ := by
+      simp [runSched, cstep, World.toC, hb0, List.lookup, setFlight]
+    rw [h0, runSched_append]
+    have hle : ((Flight.acquire F (takeAt w.ctxs pk.ctx Ctx.fresh).1 rq).enter F w.reds pk.red).1.todo.length ≤ rq.script.length := by
+      have := enter_todo_le (F := F) (Flight.acquire F (takeAt w.ctxs pk.ctx Ctx.fresh).1 rq) rfl w.reds pk.red
+      rw [acquire_rq ok] at this
+      simpa [Flight.acquire] using this
+    obtain ⟨f', X, hrun, h1, h2, h3, h4⟩ := acts_alone F (takeAt w.ctxs pk.ctx Ctx.fresh).2 fin id pk.red rq.script.length _ _
+      (enter_entered F _ w.reds pk.red) hle
+    rw [hrun]
+    rw [complete_enter, complete_of_done F f' h1 h2] at h4
+    rw [enter_orig] at h3
+    have h3' : f'.orig = rq := h3
+    simp [runSched, cstep, lookup_single, h1, h2, dropFlight, World.toC, step, hb0, serveOn, h4, h3']
+
+/-- the schedule of a sequential history: one request after the other, ids counting up from `n` -/
+def histEvents : Nat → List (Req × Pick) → List Ev
+  | _, [] => []
+  | n, (rq, pk) :: rest => soloEvents n rq pk ++ histEvents (n + 1) rest
+
+/-- … so every sequential history is a schedule, and leaves the same pools. -/
+theorem history_as_schedule {F : RFacts} (ok : F.ok = true) (hist : List (Req × Pick)) :
+    ∀ (w : World) (fin : List (Nat × Req × Obs)) (n : Nat),
+      ∃ fin', runSched F (w.toC fin) (histEvents n hist) = (runHistory F w hist).toC fin' := by
+  induction hist with
+  | nil => intro w fin n; exact ⟨fin, rfl⟩
+  | cons x rest ih =>
+    intro w fin n
+    obtain ⟨rq, pk⟩ := x
+    simp only [histEvents, runSched_append, step_as_schedule ok, runHistory]
+    exact ih _ _ _
 
 /-! ### Non-vacuity and sharpness -/
 
@@ -129,5 +213,37 @@ example : (probeAfter { theFacts with rBaseURI := false } demoHist demoProbe ⟨
 example : (probeAfter { theFacts with lBind := false, lRedirect := false } demoHist ⟨b "GET", b "/q", b "h.example.com", [(b "n", b "x")], none, 0, [.bq]⟩ ⟨0, 0⟩).map
       (fun o => o.resp.status)
     = some 400 := by decide
+
+/-! ### Non-vacuity and sharpness, schedules -/
+
+def demoA : Req := demoHist.head!.1
+
+/-- the probe without a cookie: its first `c.Redirect()` happens inside the handler (`ob`) -/
+def demoB : Req :=
+  ⟨b "GET", b "/q", b "h.example.com", [(b "n", b "x")], none, 0, [.ob, .bq, .to (b "/t")]⟩
+
+/-- Two overlapping requests: A (id 1: plants view binding, local, flash message through its cookie,
+    redirect message + status, binder mode, base URL) and the probe B (id 2). B acquires its context while
+    A is running (two contexts outstanding); A finishes — its context and its Redirect go back to the
+    pools — while B has not started its handler; B's `c.Redirect()` then receives the very Redirect
+    object A has just released; a garbage collection drops A's context from the pool in between. -/
+def demoSched : List Ev :=
+  [.acquire 1 demoA ⟨0, 0⟩, .enter 1 0, .acquire 2 demoB ⟨0, 0⟩, .enter 2 0, .act 1 0, .act 1 0, .act 1 0,
+   .act 1 0, .act 1 0, .act 1 0, .done 1 0, .gc 0 7, .act 2 0, .act 2 0, .act 2 0, .done 2 0]
+
+/-- both requests finish, B second -/
+example : ((runSched theFacts CWorld.empty demoSched).finished.map (·.1)) = [2, 1] := by decide
+
+/-- B got A's Redirect object (the pool is empty again while B holds it), and still redirects with 302
+    and no flash cookie -/
+example : (runSched theFacts CWorld.empty (demoSched.take 13)).reds.length = 0 ∧
+    (runSched theFacts CWorld.empty (demoSched.take 12)).reds.length = 1 := by decide
+example : (obsOf (runSched theFacts CWorld.empty demoSched) 2).map (fun o => (o.resp.status, o.resp.setFlash))
+    = some (302, .none) := by decide
+
+/-- Sharpness: the same schedule leaks when `Redirect.release` does not reset the pooled object -/
+example : (obsOf (runSched { theFacts with dStatus := false, dMessages := .none } CWorld.empty demoSched) 2).map
+      (fun o => (o.resp.status, o.resp.setFlash))
+    = some (301, .msgs [⟨b "k", b "v", 5, false⟩]) := by decide
 
 end C05
